@@ -1,4 +1,3 @@
 package main
 
-func transTable(path string) any  { fail("table: not implemented"); return nil }
 func transVars(paths []string) any { fail("vars: not implemented"); return nil }
